@@ -1574,7 +1574,10 @@ static void run_level(ScenState &S)
         vr::violation(sig, std::string(S.sc->name) + ";" + enc_choices(r.choices), r.detail);
       }
     }
-    if (S.level < S.bound && r.code != 5) {
+    // schedules branching off a failing execution are only explored while few executions of
+    // the scenario have failed: once a defect fails (nearly) every schedule its sub-trees add
+    // nothing but cost
+    if (S.level < S.bound && r.code != 5 && (r.code == 0 || S.failing <= 40)) {
       for (size_t i = pre.size(); i < r.choices.size(); i++) {
         for (int alt = 1; alt < (int)r.nalt[i]; alt++) {
           if (next.size() >= FRONTIER_CAP) {
